@@ -15,12 +15,21 @@ static struct aws_ring_buffer the_ring;
         g_rb = &the_ring;                                                                                              \
         g_S = nondet_size_t();                                                                                         \
         g_x = nondet_size_t();                                                                                         \
+        r_cap = true;                                                                                                  \
+        r_h = nondet_size_t();                                                                                         \
+        r_t = nondet_size_t();                                                                                         \
+        r_boff = nondet_size_t();                                                                                      \
+        r_bcap = nondet_size_t();                                                                                      \
     } while (0)
+
+/* replay witnesses of the scalar call arguments (plain copies of the harness inputs, DESIGN 3.5) */
+size_t r_n, r_mn;
 
 void h_acquire(void) {
     struct aws_byte_buf *dest;
     size_t n = nondet_size_t();
     RING_GHOSTS();
+    r_n = n;
     int r = aws_ring_buffer_acquire(&the_ring, n, dest);
     if (r == 0) {
         size_t h = POFF(the_ring.head.value), t = POFF(the_ring.tail.value);
@@ -37,6 +46,7 @@ void h_acquire_up_to(void) {
     struct aws_byte_buf *dest;
     size_t n = nondet_size_t(), mn = nondet_size_t();
     RING_GHOSTS();
+    r_n = n; r_mn = mn;
     int r = aws_ring_buffer_acquire_up_to(&the_ring, mn, n, dest);
     if (r == 0) {
         size_t h = POFF(the_ring.head.value), t = POFF(the_ring.tail.value);
@@ -60,6 +70,7 @@ void h_acquire_interleaved(void) {
     size_t n = nondet_size_t();
     RING_GHOSTS();
     SCHEDULE();
+    r_n = n;
     int r = aws_ring_buffer_acquire(&the_ring, n, dest);
     if (r == 0) {
         size_t h = POFF(the_ring.head.value), t = POFF(the_ring.tail.value);
@@ -79,6 +90,7 @@ void h_acquire_up_to_interleaved(void) {
     size_t n = nondet_size_t(), mn = nondet_size_t();
     RING_GHOSTS();
     SCHEDULE();
+    r_n = n; r_mn = mn;
     int r = aws_ring_buffer_acquire_up_to(&the_ring, mn, n, dest);
     if (r == 0) {
         size_t h = POFF(the_ring.head.value), t = POFF(the_ring.tail.value);
